@@ -135,6 +135,16 @@ Definition new_log_from (id key : N) (s : sortfn) (deny : list N) (entries : oma
                 | _ => heads end in
   mkLog id entries (from_entries heads') (build_next_index entries) maxt key key s deny.
 
+(* A log opened over a selection of another log's entries: what NewLog does with LogOptions.Entries
+   and no LogOptions.Heads (and what NewFromEntryHash / NewFromEntry / NewFromJSON hand to NewLog after
+   a complete or a length-limited load).  [keep] names the selected entries by hash, in the order in
+   which they are put into the ordered map; a hash the source does not hold selects nothing.  The
+   clock of such a log starts at 0 - NewLog looks at LogOptions.Heads only, before it finds the heads. *)
+Definition pick (m : omap) (keep : list hash) : list entry :=
+  flat_map (fun h => match oget m h with Some e => [e] | None => [] end) (uniq keep).
+Definition open_from (src : log) (keep : list hash) (key : N) (s : sortfn) (deny : list N) : log :=
+  new_log_from (l_id src) key s deny (from_entries (pick (l_entries src) keep)) [].
+
 (* ---- traverse ---- *)
 Definition push_next (entries : omap) (st : list entry * list hash * bool) (c : hash) :=
   let '(stack, seen, md) := st in
